@@ -196,7 +196,11 @@ func init() {
 		if len(rj) == 0 {
 			return false, "accepted: the recorded program is a behaviour of the specification"
 		}
-		b, _ := json.Marshal(evs[rj[0].I])
-		return true, fmt.Sprintf("rejected at step %d (%s, %s): %.1500s", rj[0].I, rj[0].Ev, rj[0].Why, b)
+		ev := evs[rj[0].I]
+		resp, _ := json.Marshal(ev.Resp)
+		obs, _ := json.Marshal(ev.Obs)
+		ev.Resp, ev.Obs = nil, nil
+		b, _ := json.Marshal(ev)
+		return true, fmt.Sprintf("rejected at step %d (%s, %s)\n  request: %.1500s\n  reply: %.3000s\n  read-back: %.3000s", rj[0].I, rj[0].Ev, rj[0].Why, b, resp, obs)
 	}
 }
